@@ -25,7 +25,8 @@ RULE = ("case = one real-time history (each <= ~0.6 s) on a real RunEngine with 
         "removal the suspender reacts to nothing (no suspension starts, no callback left on the signal); a second removal "
         "raises nothing; distinct = (history shape, suspender class, delay class)")
 ASSUMPTIONS = ["real time with delays of 50-200 ms: ordering verdicts come from the shared log, never from wall-clock stamps",
-               "wall-clock watchdog (20 s) => inconclusive"]
+               "wall-clock watchdog (20 s) => inconclusive",
+               "'stuck' = loop quiescent for 0.6 s with the call outstanding AND, for the same history run again, for 3 s (a wedged engine stays wedged; a loop thread starved on a loaded machine does not - seen once at load 38)"]
 REQUIRED_COUNTERS = {"histories": 60, "gated_starts": 15, "removals_while_suspended": 10, "post_removal_changes": 10,
                      "double_removals": 10, "removals_while_paused": 6, "two_gate_starts": 6,
                      "inplan_install_tripped": 6}
@@ -70,11 +71,18 @@ def run_case(case):
     import bluesky.preprocessors as bpp
 
     out = []
-    for i in range(case["start"], case["start"] + case["count"]):
+    todo = list(range(case["start"], case["start"] + case["count"]))
+    pos, confirming_next = 0, False
+    while pos < len(todo):
+        i = todo[pos]
+        pos += 1
+        # 'stuck' is decided from wall-clock quiescence of the loop (0.6 s): a verdict only when the SAME history is stuck
+        # again under a 3 s threshold (a wedged engine stays wedged; a loop thread starved on a loaded machine does not)
+        confirming, confirming_next = confirming_next, False
         rng = rng_for(case["seed"], "C31", i)
         sub = {"start": i, "count": 1, "seed": case["seed"]}
         shape = SHAPES[i % len(SHAPES)]
-        h = Harness(virtual=False, stuck_after=0.6)
+        h = Harness(virtual=False, stuck_after=3.0 if confirming else 0.6)
         RE = h.RE
         sig = Sig("sig", h.log, value=0)
         cls, sus, bad, good = mk_suspender(rng, sig)
@@ -84,7 +92,7 @@ def run_case(case):
         problems = []
         counters = {"histories": 1, "gated_starts": 0, "removals_while_suspended": 0, "post_removal_changes": 0,
                     "double_removals": 0, "removals_while_paused": 0, "two_gate_starts": 0,
-                    "inplan_install_tripped": 0}
+                    "inplan_install_tripped": 0, "stuck_at_0.6s_not_reproduced_at_3s": 0}
         threads = []
         trip_done = threading.Event()
 
@@ -201,6 +209,16 @@ def run_case(case):
                 RE.remove_suspender(sus)
                 res = h.call("RE", RE, plan())
         except Stuck:
+            if not confirming:
+                for t in threads:
+                    t.join(3)
+                try:
+                    h.close()
+                except Exception:  # noqa: BLE001
+                    pass
+                pos -= 1
+                confirming_next = True
+                continue
             problems.append((f"stuck:{shape}", "loop quiescent while the call was outstanding: the wait was never released"))
         except WallTimeout:
             out.append(R("inconclusive", shape, detail="wall-clock watchdog"))
@@ -208,6 +226,8 @@ def run_case(case):
             continue
         for t in threads:
             t.join(3)
+        if confirming and not any(pr[0].startswith("stuck") for pr in problems):
+            counters["stuck_at_0.6s_not_reproduced_at_3s"] = 1
         if RE.state == "paused":
             RE.abort()
         log = list(h.log)
